@@ -3,6 +3,7 @@ package harness
 import (
 	"context"
 	"encoding/json"
+	"fmt"
 	"net/http"
 	"sort"
 	"strconv"
@@ -183,6 +184,7 @@ type Mail struct {
 type Mailbox struct {
 	mu    sync.Mutex
 	Mails []Mail
+	held  []authboss.Email // the values as handed over (an outbox flushed later keeps exactly these): their slices may still be shared with the library
 	Yield func()
 	Fail  bool
 	B     *Backend // the sender counts as a backend call ("MailSend") that a fault plan can fail
@@ -220,6 +222,7 @@ func (m *Mailbox) Send(ctx context.Context, e authboss.Email) error {
 	}
 	m.mu.Lock()
 	m.Mails = append(m.Mails, ml)
+	m.held = append(m.held, e)
 	fail := m.Fail
 	m.mu.Unlock()
 	if fail {
@@ -229,6 +232,22 @@ func (m *Mailbox) Send(ctx context.Context, e authboss.Email) error {
 		return m.B.Enter("MailSend", nil)
 	}
 	return nil
+}
+
+// Changed lists the mails whose recipients or text are no longer what they were when the
+// library handed them to the mailer: a mailer that queues mails (or is still delivering one)
+// would send the changed version.
+func (m *Mailbox) Changed() []string {
+	m.mu.Lock()
+	defer m.mu.Unlock()
+	var out []string
+	for i, e := range m.held {
+		now := append(append(append([]string(nil), e.To...), e.Cc...), e.Bcc...)
+		if strings.Join(now, ",") != strings.Join(m.Mails[i].To, ",") || e.TextBody != m.Mails[i].Raw {
+			out = append(out, fmt.Sprintf("mail #%d handed over for %v now reads to=%v (text changed: %v)", i, m.Mails[i].To, now, e.TextBody != m.Mails[i].Raw))
+		}
+	}
+	return out
 }
 
 func (m *Mailbox) Len() int { m.mu.Lock(); defer m.mu.Unlock(); return len(m.Mails) }
